@@ -479,6 +479,31 @@ pub fn wide() -> Vec<LargeInput> {
     ]
 }
 
+/// Mostly unique items with recurring fillers in between (source code: unique lines, '}' and
+/// blank lines); every edit touches a FILLER only.
+pub fn filler_shapes(_seed: u64) -> Vec<LargeInput> {
+    let mut out = vec![];
+    for &n in &[60usize, 300, 900] {
+        let b: Vec<u32> = (0..n).map(|i| if i % 3 == 2 { 777_000 + ((i / 3) % 2) as u32 } else { 300_000 + i as u32 }).collect();
+        let fillers: Vec<usize> = (0..n).filter(|i| i % 3 == 2).collect();
+        for &q in &[1usize, 5, 8] {
+            let p = fillers[(fillers.len() * q) / 10];
+            let mut s = b.clone();
+            s[p] = if s[p] == 777_000 { 777_001 } else { 777_000 };
+            out.push(LargeInput { name: format!("fillers-{}-swapped@{}", n, p), old: b.clone(), new: s });
+            let mut mv = b.clone();
+            let f = mv.remove(p);
+            mv.insert((p + 3).min(mv.len()), f);
+            out.push(LargeInput { name: format!("fillers-{}-moved@{}", n, p), old: b.clone(), new: mv });
+            let mut d = b.clone();
+            d.remove(p);
+            out.push(LargeInput { name: format!("fillers-{}-deleted@{}", n, p), old: b.clone(), new: d.clone() });
+            out.push(LargeInput { name: format!("fillers-{}-inserted@{}", n, p), old: d, new: b.clone() });
+        }
+    }
+    out
+}
+
 pub fn all(tier: Tier, seed: u64) -> Vec<LargeInput> {
     let mut v = vec![];
     for n in sizes(tier) {
@@ -491,12 +516,16 @@ pub fn all(tier: Tier, seed: u64) -> Vec<LargeInput> {
     v.extend(many_hunks(seed));
     v.extend(echo_shapes(seed));
     v.extend(staggered(seed));
+    v.extend(filler_shapes(seed));
     v
 }
 
 pub fn find(name: &str, seed: u64) -> Option<LargeInput> {
     if name.starts_with("staggered-") {
         return staggered(seed).into_iter().find(|f| f.name == name);
+    }
+    if name.starts_with("fillers-") {
+        return filler_shapes(seed).into_iter().find(|f| f.name == name);
     }
     if name.starts_with("echo-") {
         return echo_shapes(seed).into_iter().find(|f| f.name == name);
@@ -534,6 +563,7 @@ pub fn describe(tier: Tier) -> serde_json::Value {
         "threshold_sweep": "sizes T-1..T+2 for T in 16,32,64,100,128,256,512,1024 x {distinct, period 3} x 8 edits at the ends / middle",
         "mixed_shapes": "sizes 40,150,400 x {distinct, 5-symbol random, nested repetition} x {three kinds of edits far apart, moved block with a substitution inside, periodic deletes and duplicates, doubled, halved, inner third reversed}",
         "staggered": "staggered repeats (one new unique anchor per nesting level, 30..300 levels) with the first / last item edited",
+        "filler_shapes": "mostly unique items with two recurring filler values in between, sizes 60 / 300 / 900; one filler swapped for the other / moved three items down / deleted / inserted, at three positions",
         "echo_shapes": "common head (0..300 items) and tail whose last/first items reappear once in the changed middle of both sides, crossing 1 or 3 unique items",
         "many_hunks": "4500 / 9000 items x {distinct, period 2, runs of three} x {every 3rd duplicated, duplicates removed, every 4th substituted, every 5th deleted + neighbour copied}: thousands of hunks",
         "many_unique": "300/520/700 blocks S_i M_i 0 0 0 vs S_i 0 0 0 M_i; 1100/2100 distinct items with 20 substitutions or two interleaved halves",
